@@ -38,6 +38,7 @@ public:
     int split_depth = 1;
     unsigned workers = 0; // 0 = ncpu
     size_t table_bits = 22;
+    double budget_s = 0; // >0: stop expanding once vx::elapsed() exceeds this (a part of a check with its own share of the deadline)
 
     ForkShared* sh = nullptr;
     std::vector<std::string> hist; // history of the current process
@@ -165,7 +166,7 @@ private:
     void dfs(int depth)
     {
         if (depth >= max_depth) return;
-        if (deadline_reached()) { sh->deadline_hit = 1; return; }
+        if (deadline_reached() || (budget_s > 0 && elapsed() > budget_s)) { sh->deadline_hit = 1; return; }
         std::vector<std::string> evs = events();
         for (size_t ei = 0; ei < evs.size(); ei++) {
             if (depth == split_depth) {
